@@ -17,7 +17,7 @@ ORACLE_FIELDS = ["gdown4", "gup4", "gdet", "gammaup3", "gammadet", "st_Gamma_udd
                  "s_Gamma_udd3", "s_Riemann_uddd3", "s_Riemann_down3", "s_Ricci_down3", "s_RicciS", "Kdown3", "Ktrace", "Kup3", "Adown3",
                  "kappaT", "kappa_rho_n", "kappa_fluxup3_n", "Hamiltonian", "Momentumup3", "eweyl_n_down3", "bweyl_n_down3",
                  "dtKtrace", "dtphi_bssnok", "dtgammaup3", "dtgammadown3_bssnok", "dtAdown3_bssnok", "dts_Gamma_bssnok", "s_Gamma_bssnok",
-                 "dalpha_over_alpha"]
+                 "dalpha_over_alpha", "nup4", "theta", "minusA", "shear2", "covd_n", "zero9", "zero16", "zero", "zero3"]
 
 
 def run_oracle(cases, nprimes=10, extra_fields=()):
@@ -38,7 +38,8 @@ def shape_of(field):
             "st_Weyl_down4": (4,) * 4, "s_Gamma_udd3": (3, 3, 3), "s_Riemann_uddd3": (3,) * 4, "s_Riemann_down3": (3,) * 4,
             "s_Ricci_down3": (3, 3), "Kdown3": (3, 3), "Kup3": (3, 3), "Adown3": (3, 3), "kappaT": (4, 4), "kappa_fluxup3_n": (3,),
             "Momentumup3": (3,), "eweyl_n_down3": (3, 3), "bweyl_n_down3": (3, 3), "dtgammaup3": (3, 3), "dtgammadown3_bssnok": (3, 3),
-            "dtAdown3_bssnok": (3, 3), "dts_Gamma_bssnok": (3,), "s_Gamma_bssnok": (3,), "dalpha_over_alpha": (3,)}.get(field, ())
+            "dtAdown3_bssnok": (3, 3), "dts_Gamma_bssnok": (3,), "s_Gamma_bssnok": (3,), "dalpha_over_alpha": (3,),
+            "nup4": (4,), "minusA": (3, 3), "covd_n": (4, 4), "zero9": (3, 3), "zero16": (4, 4), "zero3": (3,)}.get(field, ())
 
 
 def as_array(vals, field):
@@ -48,16 +49,16 @@ def as_array(vals, field):
     return a.reshape(shape_of(field)) if shape_of(field) else a[0]
 
 
-def build_instance(case, oracle, order, probe="interior", opts=None, with_T=True, boundary="no boundary"):
+def build_instance(case, oracle, order, probe="interior", opts=None, with_T=True, boundary="no boundary", refine=1):
     """AurelCore on a grid whose probe point carries the case's jets; returns (rel, probe index)."""
     import aurel.core as core
     N = 2 * order + 1
-    h = SPACING[order]
+    h = SPACING[order] / refine
     fd = fields.make_fd(N=N, order=order, h=h, boundary=boundary)
     idx = {"interior": (order, order, order), "corner": (0, 0, 0), "face": (0, order, order), "edge": (0, N - 1, order)}[probe]
     F = ST.Fields(case, fd, idx)
     kw = dict(verbose=False, Lambda=float(case["lam"]))
-    kw.update(opts or {})
+    kw.update({k: v for k, v in (opts or {}).items() if not k.startswith("_")})
     rel = core.AurelCore(fd, **kw)
     for k, v in F.inputs().items():
         rel.data[k] = v
@@ -68,12 +69,15 @@ def build_instance(case, oracle, order, probe="interior", opts=None, with_T=True
     return rel, idx, F
 
 
-def compare_keys(job):
-    """job: (case, oracle dict, order, probe, keys [(code_key, oracle_field, factor)], opts). Returns list of mismatches."""
+def compare_keys(job, refine=1):
+    """job: (case, oracle dict, order, probe, keys [(code_key, oracle_field, factor)], opts). Returns list of mismatches.
+
+    A difference above the tolerance is re-examined on a grid with half the spacing: the property is convergence at the
+    order of the scheme, so an error that shrinks by at least 2^(order - 1.5) is discretisation error, not a mismatch."""
     case, oracle, order, probe, keys, opts = job
     out = []
     try:
-        rel, idx, F = build_instance(case, oracle, order, probe, opts)
+        rel, idx, F = build_instance(case, oracle, order, probe, opts, refine=refine)
     except Exception as ex:
         return [{"key": "*", "error": f"{type(ex).__name__}: {ex}"}]
     # the harness-side K field must agree with the oracle's K at the probe (self-check of the field builder)
@@ -82,13 +86,21 @@ def compare_keys(job):
         kin = rel.data["Kdown3"][(...,) + idx]
         if np.abs(kin - kref).max() > 1e-10 * max(1.0, np.abs(kref).max()):
             return [{"key": "*", "error": "harness K field disagrees with the oracle K at the probe (machinery)"}]
-    for code_key, field, factor in keys:
+    for p in (opts or {}).get("_pre", []):
+        rel[p]
+    for kspec in keys:
+        code_key, field, factor = kspec[:3]
+        slicer = kspec[3] if len(kspec) > 3 else None
         ref = as_array(oracle[field], field)
         if ref is None:
             continue
         try:
             v = rel[code_key]
             got = np.asarray(v)[(...,) + idx] * factor
+            if slicer == "ss":
+                got = got[1:, 1:]
+            elif slicer == "s":
+                got = got[1:]
         except Exception as ex:
             out.append({"key": code_key, "error": f"{type(ex).__name__}: {str(ex)[:100]}"})
             continue
@@ -103,6 +115,19 @@ def compare_keys(job):
             out.append({"key": code_key, "component": [int(x) for x in i], "got": float(np.asarray(got)[i]) if np.ndim(err) else float(got),
                         "exact": str(oracle[field][int(np.ravel_multi_index(i, np.shape(ref)))] if np.ndim(err) else oracle[field][0]),
                         "maxerr": float(err.max()), "scale": scale, "nbad": nbad, "ncomp": int(np.size(ref))})
+    if out and refine == 1:
+        bad_keys = [k for k in keys if k[0] in {m["key"] for m in out if "maxerr" in m}]
+        if bad_keys:
+            finer = {m["key"]: m for m in compare_keys((case, oracle, order, probe, bad_keys, opts), refine=2)}
+            kept = []
+            for m in out:
+                f = finer.get(m["key"])
+                if "maxerr" in m and (f is None or f.get("maxerr", np.inf) <= m["maxerr"] / 2 ** (order - 1.5)):
+                    continue            # converges at the order of the scheme
+                if f is not None and "maxerr" in f:
+                    m["maxerr_half_spacing"] = f["maxerr"]
+                kept.append(m)
+            out = kept
     return out
 
 
